@@ -10,6 +10,9 @@
 #endif
 
 #include "system/Thread.h"
+#ifdef MUSCLE_VERIF_HOOKS
+# include "support/MuscleVerifHooks.h"
+#endif
 #include "util/NetworkUtilityFunctions.h"
 #include "dataio/TCPSocketDataIO.h"  // to get the proper #includes for recv()'ing
 #include "system/SetupSystem.h"      // for GetCurrentThreadID()
@@ -126,6 +129,9 @@ status_t Thread :: StartInternalThreadAux()
 
 status_t Thread :: StartInternalThreadAuxAux()
 {
+#ifdef MUSCLE_VERIF_HOOKS
+   if (GetMuscleVerifHooksRef()) GetMuscleVerifHooksRef()->threadPreSpawn(this);
+#endif
 #if defined(MUSCLE_USE_CPLUSPLUS11_THREADS)
 # if !defined(MUSCLE_NO_EXCEPTIONS)
    try {
@@ -220,6 +226,9 @@ void Thread :: SignalAux(int whichSocket)
          const int fd = _threadData[whichSocket]._messageSocket.GetFileDescriptor();
          if (fd >= 0)
          {
+#ifdef MUSCLE_VERIF_HOOKS
+            if (GetMuscleVerifHooksRef()) GetMuscleVerifHooksRef()->signalSend(this, fd);
+#endif
             const char junk = 'S';
             (void) send_ignore_eintr(fd, &junk, sizeof(junk), 0);
          }
@@ -300,6 +309,9 @@ status_t Thread :: WaitForNextMessageAux(ThreadSpecificData & tsd, MessageRef & 
       }
       (void) tsd._multiplexer.RegisterSocketForReadReady(msgfd);
 
+#ifdef MUSCLE_VERIF_HOOKS
+      if ((GetMuscleVerifHooksRef())&&(GetMuscleVerifHooksRef()->socketWait(this, msgfd, (wakeupTime != MUSCLE_TIME_NEVER)) != 0)) wakeupTime = 0;  // scheduler says: the timeout fires now
+#endif
       MRETURN_ON_ERROR(tsd._multiplexer.WaitForEvents(wakeupTime));
 
       ret = B_TIMED_OUT;
@@ -392,6 +404,9 @@ status_t Thread :: WaitForInternalThreadToExit()
 # if !defined(MUSCLE_NO_EXCEPTIONS)
       try {
 # endif
+#ifdef MUSCLE_VERIF_HOOKS
+         if (GetMuscleVerifHooksRef()) GetMuscleVerifHooksRef()->threadJoin(this);
+#endif
          _thread.join();
 # if !defined(MUSCLE_NO_EXCEPTIONS)
       }
@@ -426,6 +441,9 @@ Thread * Thread :: GetCurrentThread()
 // This method is here to 'wrap' the internal thread's virtual method call with some standard setup/tear-down code of our own
 void Thread::InternalThreadEntryAux()
 {
+#ifdef MUSCLE_VERIF_HOOKS
+   if (GetMuscleVerifHooksRef()) GetMuscleVerifHooksRef()->threadBegin(this);
+#endif
 #if defined(__linux__)
    _threadTid = syscall(SYS_gettid);  // was: gettid(), but some versions of libc didn't define that properly
 #endif
@@ -462,6 +480,9 @@ void Thread::InternalThreadEntryAux()
    }
 
    _threadStackBase = NULL;
+#ifdef MUSCLE_VERIF_HOOKS
+   if (GetMuscleVerifHooksRef()) GetMuscleVerifHooksRef()->threadEnd(this);
+#endif
 }
 
 Thread::muscle_thread_key Thread :: GetCurrentThreadKey()
